@@ -28,6 +28,7 @@ import SwcVerif.Props.C11Gen
 #print axioms C11.generated_rigid_source_matrices
 #print axioms C11.generated_counts_coordinate_free
 #print axioms C11.generated_counts_renumbered
+#print axioms C11.generated_n_stems_renumbered
 #print axioms C11.generated_tree_length_renumbered
 #print axioms C11.moved_mapCols
 #print axioms Invar.rigid_rowRel
